@@ -178,6 +178,7 @@ impl Co {
     }
 }
 
+#[derive(Clone)]
 pub struct LCase {
     pub doms: Vec<Vec<i32>>,
     pub cons: Vec<Co>,
@@ -360,5 +361,68 @@ pub fn suite(out: &mut Out, seed: u64, count: u64, args: &[String]) {
     }
 }
 
+fn parse_ex(w: &[&str], i: &mut usize) -> Option<Ex> {
+    let t = *w.get(*i)?;
+    *i += 1;
+    Some(match t {
+        "v" => { let k = w.get(*i)?.parse().ok()?; *i += 1; Ex::V(k) }
+        "k" => { let k = w.get(*i)?.parse().ok()?; *i += 1; Ex::K(k) }
+        "+" | "-" | "*" | "/" | "%" => {
+            let a = Box::new(parse_ex(w, i)?);
+            let b = Box::new(parse_ex(w, i)?);
+            match t { "+" => Ex::Add(a, b), "-" => Ex::Sub(a, b), "*" => Ex::Mul(a, b), "/" => Ex::Div(a, b), _ => Ex::Mod(a, b) }
+        }
+        _ => return None,
+    })
+}
+
+fn parse_co(w: &[&str], i: &mut usize) -> Option<Co> {
+    let t = *w.get(*i)?;
+    *i += 1;
+    Some(match t {
+        "cmp" => {
+            let op = match *w.get(*i)? { "eq" => "eq", "ne" => "ne", "lt" => "lt", "le" => "le", "gt" => "gt", "ge" => "ge", _ => return None };
+            *i += 1;
+            let l = parse_ex(w, i)?;
+            let r = parse_ex(w, i)?;
+            Co::Bin(l, op, r)
+        }
+        "and" => { let a = Box::new(parse_co(w, i)?); let b = Box::new(parse_co(w, i)?); Co::And(a, b) }
+        "or" => { let a = Box::new(parse_co(w, i)?); let b = Box::new(parse_co(w, i)?); Co::Or(a, b) }
+        "not" => Co::Not(Box::new(parse_co(w, i)?)),
+        _ => return None,
+    })
+}
+
+thread_local! {
+    static REPLAY_CASE: std::cell::RefCell<LCase> = std::cell::RefCell::new(LCase { doms: vec![], cons: vec![] });
+}
+
+/// a `case` line starts a fresh lowering case in replay mode
+pub fn replay_reset() {
+    REPLAY_CASE.with(|c| *c.borrow_mut() = LCase { doms: vec![], cons: vec![] });
+}
+
 /// replay of one protocol line of this suite inside the current case
-pub fn replay_line(_out: &mut Out, _line: &str) {}
+pub fn replay_line(out: &mut Out, line: &str) {
+    let w: Vec<&str> = line.split_whitespace().collect();
+    match w.first().copied() {
+        Some("lw.var") => {
+            let d: Option<Vec<i32>> = w[1..].iter().map(|x| x.parse().ok()).collect();
+            match d {
+                Some(d) => { REPLAY_CASE.with(|c| c.borrow_mut().doms.push(d)); out.emit(line, "ok"); }
+                None => { out.emit(line, "bad-op"); }
+            }
+        }
+        Some("lw.post") => {
+            let mut i = 1;
+            match parse_co(&w, &mut i) {
+                Some(c) if i == w.len() => { REPLAY_CASE.with(|x| x.borrow_mut().cons.push(c)); out.emit(line, "ok"); }
+                _ => { out.emit(line, "bad-op"); }
+            }
+        }
+        Some("lw.lower") => { let lc = REPLAY_CASE.with(|c| c.borrow().clone()); do_lower(&lc, out); }
+        Some("lw.enum") => { let lc = REPLAY_CASE.with(|c| c.borrow().clone()); do_enum(&lc, out); }
+        _ => { out.emit(line, "bad-op"); }
+    }
+}
